@@ -143,6 +143,10 @@ type CertificateValidity struct {
 	Until    time.Time
 	IsStatic bool //does it have an explicit "from"?
 	IsSet    bool //if false, it should inherit default values
+	//the configured end ("until" or "duration") of a validity without explicit "from".
+	//From and Until are run-relative then and left out of HashSum; this keeps
+	//an edit of the end visible to it.
+	RelativeEnd string `json:",omitempty"`
 }
 
 type Manipulations struct {
